@@ -39,6 +39,15 @@ def r1_snapshot(ctx):
         ctx.violation("C02.R1", f, f.node, "State.__setitem__ takes no snapshot (`self._last_fork = ...`): nothing to revert to", construct="def __setitem__")
         return
     store = stores[0]
+    # every assignment stores (and therefore snapshots): a put that returns early leaves the snapshot of an *earlier* assignment as the
+    # reference of the next revert, which then undoes an accepted move (or finds nothing to revert)
+    ctx.check(cfg.all_paths_pass(cfg.entry, [store]), "C02.R1", f, cfg.stmt[store], "every normal path through __setitem__ reaches the store (no silent early return)",
+              "State.__setitem__ can return without storing / snapshotting (e.g. when the value is unchanged): the next revert then restores the snapshot of an earlier, "
+              "already accepted assignment", construct="no early return before the store")
+    for sn in snaps:
+        hs = [h for h, pol in cfg.if_guards(sn)]
+        ctx.check(bool(hs) and cfg.all_paths_pass(cfg.entry, [hs[-1]], end=store), "C02.R1", f, cfg.stmt[sn], "the auto-fork test is evaluated on every path to the store",
+                  "some path reaches the store without evaluating the auto-fork test: no snapshot on that path", construct="auto-fork test on every path")
     for sn in snaps:
         st = cfg.stmt[sn]
         before = cfg.reachable(sn, store) and not cfg.reachable(store, sn)
@@ -177,31 +186,31 @@ def _revert_facts(ctx, rule):
     return f, cfg, subset, full_guard
 
 
-def r3_revert_structure(ctx):
-    ctx.rule("C02.R3", "structure of State.revert (full and partial branch)", 4)
-    f, cfg, subset, (gh, glab) = _revert_facts(ctx, "C02.R3")
+def r3_revert_structure(ctx, rid="C02.R3", title="structure of State.revert (full and partial branch)"):
+    ctx.rule(rid, title, 4)
+    f, cfg, subset, (gh, glab) = _revert_facts(ctx, rid)
     ifst = cfg.stmt[gh]
     full_body = ifst.body if glab else ifst.orelse
     # full branch
     upd = [s for s in full_body if isinstance(s, ast.Expr) and isinstance(s.value, ast.Call) and U(s.value.func) == "self._values.update"
            and s.value.args and U(s.value.args[0]) == "self._last_fork"]
     clr = [s for s in full_body if isinstance(s, ast.Assign) and U(s.targets[0]) == "self._last_fork" and U(s.value) == "None"]
-    ctx.check(bool(upd), "C02.R3", f, upd[0] if upd else ifst, "full revert restores every snapshotted entry",
+    ctx.check(bool(upd), rid, f, upd[0] if upd else ifst, "full revert restores every snapshotted entry",
               "full revert does not restore the whole snapshot (`self._values.update(self._last_fork)`)")
-    ctx.check(bool(clr) and bool(upd) and full_body.index(clr[0]) > full_body.index(upd[0]), "C02.R3", f, clr[0] if clr else ifst,
+    ctx.check(bool(clr) and bool(upd) and full_body.index(clr[0]) > full_body.index(upd[0]), rid, f, clr[0] if clr else ifst,
               "snapshot cleared after the restore", "snapshot is not cleared after the full restore (a second revert would resurrect stale values)")
     # no-fork guard
     rs = [n for n in cfg.nodes(lambda s: isinstance(s, ast.Raise))]
     ok_guard = any(any(U(cfg.stmt[h].test) == "self._last_fork is None" and lab for h, lab in cfg.if_guards(r)) for r in rs)
-    ctx.check(ok_guard, "C02.R3", f, f.node, "revert without snapshot raises", "revert without a snapshot does not raise", construct="guard: self._last_fork is None")
+    ctx.check(ok_guard, rid, f, f.node, "revert without snapshot raises", "revert without a snapshot does not raise", construct="guard: self._last_fork is None")
     # partial branch
     loops = [n for n in cfg.nodes(lambda s: isinstance(s, ast.For) and U(s.iter) == "self._last_fork.items()")]
     if not loops:
-        ctx.violation("C02.R3", f, f.node, "partial revert does not iterate over the whole snapshot `self._last_fork.items()`", construct="partial branch")
+        ctx.violation(rid, f, f.node, "partial revert does not iterate over the whole snapshot `self._last_fork.items()`", construct="partial branch")
         return
     lp = cfg.stmt[loops[0]]
     kname, oldname = (U(lp.target.elts[0]), U(lp.target.elts[1])) if isinstance(lp.target, ast.Tuple) else (None, None)
-    ctx.ok("C02.R3", f, lp, "partial revert iterates the whole snapshot")
+    ctx.ok(rid, f, lp, "partial revert iterates the whole snapshot")
     # None handling
     none_ok = False
     for s in ast.walk(lp):
@@ -209,11 +218,11 @@ def r3_revert_structure(ctx):
             for b in s.body:
                 if isinstance(b, ast.Assign) and U(b.targets[0]) == f"self._values[{kname}]" and U(b.value) == "None":
                     none_ok = True
-    ctx.check(none_ok, "C02.R3", f, lp, "entry unset on either side is left unset (recomputed lazily)",
+    ctx.check(none_ok, rid, f, lp, "entry unset on either side is left unset (recomputed lazily)",
               "partial revert does not reset entries that are unset on either side", construct="None handling in partial revert")
     after = [n for n in cfg.nodes(lambda s: isinstance(s, ast.Assign) and U(s.targets[0]) == "self._last_fork" and U(s.value) == "None")
              if cfg.reachable(loops[0], n) and n not in [cfg.node_of(c) for c in clr]]
-    ctx.check(bool(after) and cfg.all_paths_pass(loops[0], after), "C02.R3", f, cfg.stmt[after[0]] if after else lp,
+    ctx.check(bool(after) and cfg.all_paths_pass(loops[0], after), rid, f, cfg.stmt[after[0]] if after else lp,
               "snapshot cleared after the partial revert", "snapshot not cleared after the partial revert", construct="clear after partial revert")
 
 
